@@ -137,6 +137,6 @@ package capacity
 //@   assume-at call Lock#1 indexed-under-its-id: inState(sk, 4, sid) ==> wsAt(sk, 4, sid) == ws
 //@   assume-at call Lock#2 plotting-space-stays-put: inState(sk, 1, sid) && wsAt(sk, 1, sid) == ws && sk.queue.poppedItem == qws && qws.ws == ws && (forall t string :: inState(sk, 1, t) ==> t == sid)
 //@   assert-at call Plot only-a-space-moved-to-plotting-is-plotted: inState(sk, 1, sid) && wsAt(sk, 1, sid) == ws && ws.state == 1
-//@   assert-at call Unlock#1 registered-becomes-plotting: inState(sk, 1, sid) && wsAt(sk, 1, sid) == ws && ws.state == 1 && !inState(sk, 0, sid)
-//@   assert-at call Unlock#2 not-registered-is-not-plotted: !inState(sk, 1, sid) && (ws.state == 3 && inState(sk, 3, sid) && wsAt(sk, 3, sid) == ws ==> qws.wouldMining || ws.state == 3)
+//@   assert-at call Unlock#2 registered-becomes-plotting: inState(sk, 1, sid) && wsAt(sk, 1, sid) == ws && ws.state == 1 && !inState(sk, 0, sid)
+//@   assert-at call Unlock#1 not-registered-is-not-plotted: !inState(sk, 1, sid)
 //@   assert-at call Unlock#3 plot-end-transition: !inState(sk, 1, sid) && ((inState(sk, 0, sid) && ws.state == 0) || (inState(sk, 3, sid) && ws.state == 3 && qws.wouldMining) || (inState(sk, 2, sid) && ws.state == 2 && !qws.wouldMining))
